@@ -169,6 +169,23 @@ Definition entry (sel : Z) (toks : list Z) : list Z :=
            | Some (D, _, _, os) => eBool (law_weight D os) | None => bad_input end
   | 105 => match run_dec dLawIn toks with
            | Some (D, total, tg, os) => eBool (law_reserve false D total tg os) | None => bad_input end
+  | 115 => match run_dec dLawIn toks with
+           | Some (D, _, _, os) => eBool (law_bounds_lenient D os) | None => bad_input end
+  | 111 => match run_dec (let* D := dNat in let* total := dRep D dCellS in
+                          let* qs := dList (let* c := dRep D dCellS in let* g := dRep D dCellS in
+                                            let* d := dRep D dCellS in ret (c, g, d)) in
+                          ret (D, total, qs)) toks with
+           | Some (D, total, qs) => eBool (law_capability D total qs) | None => bad_input end
+  | 112 => match run_dec (let* i := dInput in
+                          let '(D, total, ss) := i in
+                          let* ab := dList (let* da := dRep D dCellS in let* al := dRep D dCellS in
+                                            let* oa := dBool in let* db := dRep D dCellS in
+                                            let* ob := dBool in
+                                            ret (mkO 1 [] [] [] al da oa, mkO 1 [] [] [] al db ob)) in
+                          ret (D, total, ss, ab)) toks with
+           | Some (D, total, ss, ab) =>
+               eBool (law_order_excused D (robust fuel_cmp D true (vfix D total) (attrs total ss)) ab)
+           | None => bad_input end
   | 107 => match run_dec (let* D := dZ in let* big := dZ in let* r := dZ in let* ws := dList dZ in
                           ret (D, big, r, ws)) toks with
            | Some (D, big, r, ws) => eBool (law_rounds D big r ws) | None => bad_input end
